@@ -147,11 +147,12 @@ MORE = {
     "C01": " Document checks call the public mappyfile.loads/dumps (worker constructors memoised per call). S5 adds strings shaped like another lexical class of their slot (known finding).",
     "C08": " Plus: strings with combining / astral / full-width characters followed by further tokens on the line, and every CONFIG setting of the MAP schema with out-of-vocabulary values (any message must carry a CONFIG keyword's line/column).",
     "C09": " A minVersion/maxVersion written next to a $ref counts as an annotation. MAP documents are validated through the public mappyfile.validate; whole-number versions are also supplied as Python ints.",
-    "C10": " Operand alphabets include hex-colour-shaped strings, back-quoted literals holding quotes/brackets, and comparisons against regular expressions holding brackets, quotes and operator words; whole-value list expressions with bindings.",
+    "C10": " Operand alphabets include hex-colour-shaped strings, back-quoted literals holding quotes/brackets, and comparisons against regular expressions holding brackets, quotes and operator words; whole-value list expressions with bindings; function calls whose argument is a parenthesised sub-expression.",
     "C12": " Histories (23 operations) include documents spelling equal numbers as int/float, results edited in place by the caller, parse_file followed by parse(text) with a relative INCLUDE, printing after a version-aware validate; schedules include dumps pairs with equal option sets (2 pre-emptions), equal layout options with different switches, different alignment columns, and open() of two directories with the same relative include names; purity also over documents whose comment lists hold 2-3 comments.",
     "C14": " Plus comment lines of their own above keywords and METADATA pairs, and hand-written documents (root key/value blocks, bare values ending in END, multi-line comments above nested blocks) x LF/CRLF sources x five option sets with a text-level oracle.",
     "C15": " Include file names holding shell / escape characters are taken verbatim. Plus: look-alike lines (comment delimiters / directive words inside strings and # comments) before and between INCLUDE lines, repeated INCLUDE names with expand_includes=False, root and include files reached through symbolic links.",
-    "C17": " A second key alphabet on which lower() and casefold() disagree is run through the closure, and every nested dictionary of documents returned by loads is checked for class identity and an operation battery with respelled keys.",
+    "C11": " Plus INCLUDE lines with twenty kinds of broken quoting naming a file that exists.",
+    "C17": " update() also with UserDict / ChainMap arguments; a missing object-list key is read on every nested dictionary of loaded documents. A second key alphabet on which lower() and casefold() disagree is run through the closure, and every nested dictionary of documents returned by loads is checked for class identity and an operation battery with respelled keys.",
     "C18": " Two-step histories with shared patch fragments (lists and dict-valued keys), upper-case patch keys against Mapfile dictionaries, findunique over falsy / mixed numeric values.",
     "C20": " validate file kinds include a file producing two identical messages.",
     "C19": " Plus: every value alternative must admit one of its own representatives under the keyword's whole schema (overlapping oneOf alternatives), and every positional document is re-parsed at the end of its shortest containment path and must yield the same object.",
